@@ -47,7 +47,7 @@ CLAIMED = {
          "An Err is 'not accepted' and is not judged (acceptance per locator is reported). The analysis tolerance is at least twice the chord sag of the sampled section. Stations and edge points added by the heuristic locators (ConstRadiusEdge, TraceToMaxCurvature, ConvergeTangentEdge, RansacRadiusEdge) are judged with the same clauses but reported as one clause per locator (four known findings); the measurement clauses are judged for configurations that use IntersectEdge / FitRadiusEdge / OpenEdge / OpenIntersectGap only.",
          "3 / C10"),
  "C11": ("runtime monitor: defining-constraint oracle with a configuration classifier (exactly constructed tangent cases) and an independently computed bounding box",
-         "Exploration: circle-circle intersections in every relative position (separate, externally/internally tangent, crossing, nested, concentric, equal radii, identical), intersection intervals, circle-segment and curve-circle intersections, tangent points from external points at d/r from 1+1e-6 to 1e3, outer tangent segments, arcs by angles and through three points (start/end/sweep sign/length/fraction), and the cached bounding boxes of circles and arcs against dense samples and an independent box.",
+         "Exploration: circle-circle intersections in every relative position (separate, externally/internally tangent, crossing, nested, concentric, equal radii, identical), intersection intervals, circle-segment and curve-circle intersections, tangent points from external points at d/r from 1+1e-6 to 1e3, outer tangent segments, arcs by angles and through three points at every scale (well-shaped triangles down to 1e-3 across; start/end/sweep sign/length/fraction), and the cached bounding boxes of circles and arcs against dense samples and an independent box.",
          "Tangent configurations are built on dyadic, axis-aligned coordinates so that they are exact; non-constructed cases stay >= 1e-6 r away from tangency; on-object tolerance 1e-9*scale. The private line-circle primitive is observed through the public segment intersection. Known finding: reversed left/right order of outer tangents for equal radii (cannot be repaired without editing an existing unit test).",
          "3 / C11"),
  "C12": ("runtime monitor: union-find / multiset counting oracles, exhaustive enumeration of small face lists, repetition across hash-iteration orders, hooked step bounds",
@@ -59,7 +59,7 @@ CLAIMED = {
          "Known findings (dependency parry3d 0.18 intersection_with_local_plane does not terminate): sections whose polyline has free ends (open meshes) and some planes exactly through vertices, edges or faces. The in-process main stream relies on the 1e-4*size clearance (no non-termination observed in 280 000 sections).",
          "3 / C13"),
  "C14": ("runtime monitor: sequential BTreeSet model over an independently evaluated per-face predicate; chains repeated across hash orders and starting-index permutations",
-         "Exploration: chains of 1-6 Add/Remove/Keep steps over facing(n, angle) and near_mesh(ref, all|any, distance, planar?, angle?) on boxes, spheres, tori and height fields with a slightly moved / partial reference mesh, from none / all / random index selections; after every step the library's selection must equal the model's set operation on every face whose predicate is outside the guard bands; the whole chain is repeated and re-run with permuted starting indices and must give the identical selection; create_from_indices / create_mesh must contain exactly the selected triangles (bit-equal coordinates, same winding) and only the vertices they use.",
+         "Exploration: chains of 1-6 Add/Remove/Keep steps over facing(n, angle) and near_mesh(ref, all|any, distance, planar?, angle?) on boxes, spheres, tori and height fields with a slightly moved / partial reference mesh, from none / all / random index selections; after every step the library's selection must equal the model's set operation on every face whose predicate is outside the guard bands; the whole chain is repeated and re-run with permuted starting indices and must give the identical selection; create_from_indices / create_mesh must contain exactly the selected triangles (bit-equal coordinates, same winding) and only the vertices they use; a second stream builds meshes from index lists (identity, permutations, subsets, repeats, lists of face-count length) on meshes that also carry vertices no face uses.",
          "The per-vertex projection onto the reference mesh is taken from the public project_with_max_dist (declared exception); thresholds have guard bands (1e-9 relative, 1e-7 rad); empty selections are not turned into meshes.",
          "3 / C14"),
  "C15": ("runtime monitor: brute-force oracles over all points / faces for every query; 7-sigma frequency monitor for uniform sampling; the dependency's leaf-size rule replayed to classify point sets",
@@ -72,7 +72,7 @@ CLAIMED = {
          "3 / C16"),
  "C17": ("runtime monitor: structural invariant after every constructor/derivation plus a piecewise-linear reference model",
          "Exploration: DiscreteDomain::linear / linear_space with bounds in both orders, TryFrom<Vec>, push histories against a Vec model, index_of/bounds; Series1 interpolate (knots, +-ulp, outside), between/in_interval with bounds inside the domain (exact ends, same function), split_at_x (areas add up, pieces meet at x), resampled_n/resampled_x (ends kept, on the graph), y_crossings (on level, every sign change represented), and chains of up to 6 derived operations with the structural invariant (finite ascending abscissae, matching ordinates) judged after every step.",
-         "Slices are requested inside the domain; levels equal to a flat segment are not generated; a loud panic on a degenerate (< 2 knots) series is not counted as a silently invalid object. Known finding: linear_space with start > end returns a descending domain.",
+         "Slices are requested inside the domain; for a flat run lying on the level the crossings must contain the knots of the run (one case in five is such a run); a loud panic on a degenerate (< 2 knots) series is not counted as a silently invalid object. Known finding: linear_space with start > end returns a descending domain.",
          "3 / C17"),
  "C18": ("runtime monitor: modular-arithmetic and set-definition oracles on an ulp-lattice of special angles and bounds plus uniform samples",
          "Exploration: angle_signed_pi / angle_to_2pi / signed_compliment_2pi / angle_in_direction / signed_angle / directed_angle on the lattice {k*pi/2, +-1e6, +-1e-300, +-0} with one ulp either side and uniform angles to +-1e6, vector pairs incl. equal, opposite, perpendicular, tiny and huge; AngleInterval membership, negative extents, full turns, intersects and at_fraction against an arc-overlap oracle; Interval construction (NaN rejection), contains, contains_interval, overlaps, intersection, clamp, length against set definitions incl. equal and infinite bounds.",
